@@ -41,6 +41,11 @@ class SrcInfo:
             self._scan(txt)
         self._impl_cache = {}
         self.trait_args = {}
+        # pest_derive generates `enum Rule { EOI, <rule names in grammar order> }`
+        gp = os.path.join(repo, 'crates/core/src/parser/grammar.pest')
+        if os.path.exists(gp) and 'Rule' not in self.enums:
+            g = re.sub(r'//[^\n]*', '', open(gp).read())
+            self.enums['Rule'] = ['EOI'] + re.findall(r'^\s*([A-Za-z_][A-Za-z_0-9]*)\s*=\s*[_@$!]?\s*\{', g, flags=re.M)
 
     def _scan(self, txt):
         t = strip_comments(txt)
